@@ -59,14 +59,16 @@ def run(c, pid, groups, parts, spec, spec_files, prop_files_quick, prop_files_th
             t = l.split()
             if t and t[0] == "OP":
                 oplist[(t[1], int(t[2]))] = ("" if t[3] == "-" else t[3], t[4], int(t[5]))
-    gen_files, refuted, ntraced, nagree, exec_only, deferred = [], {}, 0, 0, [], []
+    gen_files, refuted, ntraced, nagree, exec_only, deferred, double_only = [], {}, 0, 0, [], [], []
     for (job, out, rc, so, se) in traced:
         if rc != 0:
             c.report("trace:g%d:n%d" % (job[0], job[1]), "tracer failed on /repo's tensor code: " + se[-600:], {"stderr": se[-3000:]}, False)
             continue
         gen_files.append(out)
         for l in so.splitlines():
-            if l.startswith("TRACED-EXEC-ONLY"):
+            if l.startswith("EXEC-DOUBLE-ONLY"):
+                double_only.append(l.split()[1])
+            elif l.startswith("TRACED-EXEC-ONLY"):
                 exec_only.append(l.split()[1])
             elif l.startswith("TRACED-DEFERRED"):
                 deferred.append(l.split()[1])
@@ -125,6 +127,10 @@ def run(c, pid, groups, parts, spec, spec_files, prop_files_quick, prop_files_th
         c.coverage["not_proved_execution_only"] = sorted(exec_only)
         c.notes.append("NOT PROVED (execution only: traced, Sym-vs-double agreement and numerical specification on the seeded inputs, "
                        "no Coq obligation, not counted): %s" % sorted(exec_only))
+    if double_only:
+        c.coverage["not_traced_double_execution_only"] = sorted(double_only)
+        c.notes.append("NOT TRACED, NOT PROVED (code that cannot be instantiated with the symbolic scalar: iterative eigen-solver, pivoting LU): the real "
+                       "double code is executed on the seeded inputs and compared with the numerical specification only: %s" % sorted(double_only))
     c.trusted("engine S tracer (cxx/sym/sym.hxx: operator overloads, exact folding in Q[sqrt2,sqrt3], printer), g++ template instantiation with symv::Sym",
               "Sym-vs-double agreement of every traced operation on seeded inputs (generic, small integers with zeros/ties, mixed magnitudes): checked, not proved",
               "storage accessors operator[] / operator()(i,j) of the TFEL objects used to fill inputs and read outputs")
@@ -160,8 +166,18 @@ def run(c, pid, groups, parts, spec, spec_files, prop_files_quick, prop_files_th
 
     def timed_out(r):
         return bool(r.failed) and all(m == "timeout" or "Timeout!" in m for (_f, _l, _t, m) in r.failed)
+    timing = {}
+
+    def compile_gen(f):
+        t = time.time()
+        r = c.coq([f], timeout=limit())
+        timing[os.path.basename(f)] = time.time() - t
+        return (f, r)
+    # longest first (sizes of the generated files are a good proxy): better packing of the workers
+    gen_files.sort(key=lambda f: -os.path.getsize(f))
     with ThreadPoolExecutor(max_workers=workers) as ex:
-        results = list(ex.map(lambda f: (f, c.coq([f], timeout=limit())), gen_files))
+        results = list(ex.map(compile_gen, gen_files))
+    c.log("slowest generated files: " + ", ".join("%s %.0fs" % (k, v) for k, v in sorted(timing.items(), key=lambda kv: -kv[1])[:8]))
     for i, (f, r) in enumerate(results):
         if not r.ok and timed_out(r):
             c.log("%s ran out of time (load %.1f): compiled again, alone" % (os.path.basename(f), os.getloadavg()[0]))
